@@ -29,7 +29,7 @@ from apischema.conversions import Conversion, as_str, catch_value_error
 
 # =================== bytes =====================
 
-deserializer(Conversion(b64decode, source=str, target=bytes))
+deserializer(Conversion(catch_value_error(b64decode), source=str, target=bytes))
 
 
 @serializer
